@@ -388,7 +388,46 @@ def r11(ctx):
     if n < 1:
         raise AnalysisBroken('C15.R11: setAnswer call in BusHandler::notifyProtocolMessage not found')
 
+def r12(ctx):
+    ctx.rule('C15.R12', 'an answer is registered for the address the client named: in MainLoop::executeAnswer the destination '
+             'handed to setAnswer starts as "not given" (SYN), is assigned inside the option loop only from a parsed option '
+             'value, and the own master/slave address is filled in behind the loop only while it is still "not given" - the '
+             'result must not depend on the order of -d and -m', minimum=3)
+    fb = ctx.fb
+    fn = fb.fn('ebusd::MainLoop::executeAnswer')
+    ctx.touch(fn)
+    sets = fn.calls('ebusd::ProtocolHandler::setAnswer', suffix=False)
+    if not sets:
+        raise AnalysisBroken('C15.R12: setAnswer call not found in executeAnswer')
+    d = fn.ref_decl(fn.nodes[sets[0]]['args'][1])
+    if not d:
+        raise AnalysisBroken('C15.R12: destination argument of setAnswer is not a local')
+    dn = d.split(':')[-1]
+    syn = 170
+    n = 0
+    for nid, d2, rhs, op, lhs in fn.assignments():
+        if d2 != d or rhs is None:
+            continue
+        n += 1
+        inloop = any(fn.nodes[a].get('k') in ('WhileStmt', 'ForStmt') for a in fn.ancestors(nid))
+        if op == 'init':
+            ok = fn.cval(rhs) == syn
+            ctx.ob('C15.R12', fn, nid, ok, 'initial destination', 'starts as %s' % fn.key(rhs))
+        elif inloop:
+            src = fn.ref_decl(rhs) if fn.nodes[fn.strip(rhs, casts=True)].get('k') == 'DeclRefExpr' else None
+            parsed = src is not None and any(d3 == src and r3 is not None and any(
+                (fn.nodes[x].get('callee') or '').endswith('parseInt') for x in fn.walk(r3)) for _, d3, r3, _, _ in fn.assignments())
+            ctx.ob('C15.R12', fn, nid, parsed, 'destination set by an option', 'value %s comes from a parsed option argument: %s' % (fn.key(rhs), parsed))
+        else:
+            names = ['#%d' % syn] + [k.split(':')[-1] for k, v_ in fn.const_locals().items() if v_ == syn]
+            ok = fn.needs_one_of(nid, [('(%s == %s)' % (dn, nm), True) for nm in names])
+            ctx.ob('C15.R12', fn, nid, ok, 'default destination', 'applied only while no address was given: %s' % ok)
+    if n < 3:
+        raise AnalysisBroken('C15.R12: only %d assignments of the destination found' % n)
+
+
 def run(ctx):
+    r12(ctx)
     r1(ctx)
     r2(ctx)
     r3(ctx)
